@@ -237,14 +237,15 @@ class CenteredDifferences(BaseGradientApproximator):
             upper_bounds = normalize_vect(upper_bounds)
 
         steps_plus = where(
-            input_perturbations[input_indices, range(n_indices)] >= upper_bounds,
+            input_perturbations[input_indices, range(n_indices)] + step
+            > upper_bounds[input_indices],
             0,
             step,
         )
         input_perturbations[input_indices, range(n_indices)] += steps_plus
         steps_minus = where(
-            input_perturbations[input_indices, range(n_indices, 2 * n_indices)]
-            <= lower_bounds,
+            input_perturbations[input_indices, range(n_indices, 2 * n_indices)] - step
+            < lower_bounds[input_indices],
             0,
             -step,
         )
